@@ -360,13 +360,35 @@ def run_dictobs(outs, plan, timeout=1200):
     if n == 0:
         return {"records": 0, "columns": 0, "drift": []}
     cfg = 'SPECIFICATION Spec\nCONSTANT TraceFile = "trace.ndjson"\nINVARIANT Report\nCHECK_DEADLOCK FALSE\n'
-    r = C.run_tlc(SPEC, "DictObs", cfg, workers=1, timeout=timeout, files={"trace.ndjson": tp})
-    m = re.search(r'<<"DICTOBS-RESULT", (\d+), (\d+), "(.*)">>', r["out"])
-    C.drop_scratch(r["dir"])
+    # the monitor's state grows with the number of columns it follows: whole streams are validated in chunks, in parallel
+    chunks, cur, last_tr = [], [], None
+    with open(tp) as fh:
+        for line in fh:
+            tr = json.loads(line)["n"]          # the stream the column belongs to
+            if len(cur) >= 12000 and tr != last_tr:
+                chunks.append(cur)
+                cur = []
+            cur.append(line)
+            last_tr = tr
+    if cur:
+        chunks.append(cur)
+    def one(k):
+        cp = os.path.join(d, "chunk%d.ndjson" % k)
+        open(cp, "w").writelines(chunks[k])
+        r = C.run_tlc(SPEC, "DictObs", cfg, workers=1, timeout=timeout, files={"trace.ndjson": cp}, heap="4g")
+        m = re.search(r'<<"DICTOBS-RESULT", (\d+), (\d+), "(.*)">>', r["out"])
+        C.drop_scratch(r["dir"])
+        if not m:
+            raise C.Inconclusive("DictObs did not finish:\n" + r["out"][-2500:])
+        return int(m.group(1)), int(m.group(2)), json.loads(m.group(3).encode().decode("unicode_escape"))
+    res = {"records": 0, "columns": 0, "drift": []}
+    with ThreadPoolExecutor(max_workers=6) as pool:
+        for nrec, ncol, drift in pool.map(one, range(len(chunks))):
+            res["records"] += nrec
+            res["columns"] += ncol
+            res["drift"].extend(drift)
     C.drop_scratch(d)
-    if not m:
-        raise C.Inconclusive("DictObs did not finish:\n" + r["out"][-2500:])
-    return {"records": int(m.group(1)), "columns": int(m.group(2)), "drift": json.loads(m.group(3).encode().decode("unicode_escape"))}
+    return res
 
 def dictionary_mc(quick):
     """Exhaustive TLC runs of Dictionary.tla (scaled capacities). Returns (states, generated, runs, issues)."""
